@@ -28,7 +28,7 @@ VARIABLES mainPc, nextI, file, tokens, wg, gpc, slot, out, ctxFile, sched,   \* 
           l, step, names, chk, cnt, pslot, pcount, found
 
 F == INSTANCE FanOut WITH N <- TN, K <- TK, NFiles <- TNFiles,
-       WaitBeforePrint <- TRUE, ReleaseAfterCheck <- TRUE, PrivateSlots <- TRUE
+       WaitBeforePrint <- TRUE, ReleaseAfterCheck <- TRUE, PrivateSlots <- TRUE, TokenReturned <- TRUE, RecordSched <- FALSE
 
 fvars == <<mainPc, nextI, file, tokens, wg, gpc, slot, out, ctxFile, sched>>
 xvars == <<step, names, chk, cnt, pslot, pcount, found>>
